@@ -45,6 +45,8 @@ def stages(tier, seed, bins):
             # repeated samples: rows whose closest candidates tie at distance zero cannot reach a small perplexity
             extra = dict(copies=rnd.choice([2, 3, 4, 6]), perm=rnd.randrange(1, 1 << 30))
             perp = min(perp, rnd.choice([1.5, 2.0, 3.0, 5.0]))
+        if rnd.random() < 0.15:
+            extra["xscale"] = rnd.choice([1e-6, 1e-3, 1e3, 1e6])  # the input is max-normalised: the unit must not matter
         add(mode="perp", data=kind, N=N, D=rnd.choice([2, 3, 5, 10, 20]),
             dseed=rnd.randrange(1 << 30), perp="%.6g" % perp, srand=rnd.randrange(1 << 30), nc=3, gap=6, **extra)
     ngrad = 1000 if thorough else 60
